@@ -304,6 +304,14 @@ def unitSum (l : List (Nat × Nat)) : Nat × Nat :=
   | none => (0, 0)
   | some m => (m, convertedSum m l)
 
+/-! ## Sample types: the per-source outcome carries the list of its sample types
+
+`combineProfiles` keeps the sample types that ALL profiles it merges have (`CompatibilizeSampleTypes`),
+in the order of the first one; an empty result is an error.  Types are numbers here. -/
+def commonTypes : List (List Nat) → List Nat
+  | [] => []
+  | f :: rest => f.filter (fun t => rest.all (fun s => s.contains t))
+
 /-- What the model needs of the chunking facts regenerated from the source (`Gen/FetchConsts.lean`),
 as far as they were recognised (`none` = not recognised, then nothing is claimed): the chunk size
 is positive; consecutive chunks start exactly one chunk length apart (no gap, no overlap) and a
